@@ -168,7 +168,7 @@ pub fn run(ctx: &mut Ctx) {
         }
     });
 
-    let cases = ctx.tier.pick(30_000u64, 400_000u64);
+    let cases = ctx.tier.pick(300_000u64, 3_000_000u64);
     ctx.pbt("c08-random", cases, 2600, |t, st| {
         let text: String = match t.weighted(&[5, 3, 2]) {
             0 => gen_accepted(t, Avoid::NONE, 6).text(),
